@@ -7,10 +7,13 @@ C13 — Sparse Merkle state persists completely in its node storage.
    and loading at a root whose nodes are missing fails rather than producing a wrong tree."
 
 Stated on the storage-level model (`Model/SparseStore.lean`, the transcription of `merkle_tree.rs`),
-for every hash function `H` and every node store satisfying the finite-map laws (`StoreLaws`).
+for every hash function `H` and every node store satisfying the finite-map laws (`StoreLaws`); the invariant
+over all histories (`persistStatement_holds`, `reachable_load_roundtrip`, `reload_mid_history`) additionally
+needs `HashOK H` (collision-free on the tagged 65-byte inputs, never the zero sum) and 32-byte keys.
 -/
 import FuelVerif.Lemmas.SparseStore
 import FuelVerif.Lemmas.SparseRefine
+import FuelVerif.Lemmas.SparseRefineDelete
 namespace FuelVerif.SmtStore
 open FuelVerif FuelVerif.Gen.Sparse
 
@@ -89,9 +92,11 @@ theorem first_insert_persisted (hl : StoreLaws S) (st : σ) (k d : Bytes)
   · simpa [Node.createLeaf, Node.hash] using hnz
   · rw [hl.get_insert]; simp
 
-/-- FULL STATEMENT of the persistence clause (the invariant over all histories; proved so far only for the
-cases above, checked for all generated histories by stream `c13` with a reload at EVERY position):
-every state reachable from the empty tree by `insert`/`delete` over a lawful store is `RootPersisted`. -/
+/-- the persistence invariant as first written: every state reachable from the empty tree by `insert`/`delete`
+over a lawful store is `RootPersisted` — for EVERY function `H` and keys of any length. In this generality it is
+FALSE (`persistStatement_needs_hash`: a hash function that returns the zero sum makes the first leaf look like
+a placeholder). The true full statement, for a collision-free never-zero hash and 32-byte keys (the Rust type
+`MerkleTreeKey`), is `PersistStatementOK`, proved as `persistStatement_holds`. -/
 def PersistStatement : Prop :=
   ∀ (hl : StoreLaws S) (st : σ) (ops : List (Bool × Bytes × Bytes)),
     RootPersisted H S (ops.foldl (fun t op =>
@@ -100,10 +105,146 @@ def PersistStatement : Prop :=
 /-- **every state that represents a structural tree is persisted**: if the in-memory root is the node of
 a canonical tree `t` and all nodes of `t` are in the store (`SmtRefine.Rep`, garbage allowed), then
 reloading from the store at the current root returns the identical state. (`Rep` is established by
-`new`; its preservation by `insert`/`delete` is the refinement that is checked by the streams and only
-partly proved — `SmtRefine.mergeSides_replace` is the proved core of the path rebuild.) -/
+`new` and preserved by `insert`/`delete`: `SmtRefine.insert_rep`, `SmtRefine.delete_rep`.) -/
 theorem rep_reload (hok : FuelVerif.SmtBytes.HashOK H) (s : SMT σ) (t : FuelVerif.SmtRefine.T)
     (hr : FuelVerif.SmtRefine.Rep H hok S s t) : load H S s.storage s.rootHash = .ok s :=
   load_roundtrip H S s (FuelVerif.SmtRefine.rep_rootPersisted H hok S hr)
+
+/-! ### the persistence invariant over all histories -/
+
+open FuelVerif.SmtBytes FuelVerif.SmtRefine in
+/-- hashes reachable from `root` through the node table: the root, and the two child hashes of every stored
+internal node reached under a non-zero hash (what `StorageNode::left_child` / `right_child` follow) -/
+inductive Reach (st : σ) (root : Bytes) : Bytes → Prop
+  | root : Reach st root root
+  | lo {h : Bytes} {p : Prim} : Reach st root h → h ≠ zeroSum → S.get st h = some p →
+      p.pfx = Prefix.node.byte → Reach st root p.lo
+  | hi {h : Bytes} {p : Prim} : Reach st root h → h ≠ zeroSum → S.get st h = some p →
+      p.pfx = Prefix.node.byte → Reach st root p.hi
+
+/-- the storage is CLOSED under the tree: every non-placeholder hash reachable from the root is stored, and
+what is stored under it is a well-formed node with exactly that hash (so it deserialises, and `load` /
+`left_child` / `right_child` on it succeed) -/
+def Closed (t : SMT σ) : Prop :=
+  ∀ h, Reach S t.storage t.rootHash h → h ≠ zeroSum →
+    ∃ nd : Node, nd.Wf H ∧ nd ≠ .placeholder ∧ nd.hash = h ∧ S.get t.storage h = some nd.toPrim
+
+/-- one call of `MerkleTree::insert` (`true`) / `MerkleTree::delete` (`false`): the state it leaves -/
+def opStep (t : SMT σ) (op : Bool × Bytes × Bytes) : SMT σ :=
+  if op.1 then (insert H S t op.2.1 op.2.2).1 else (delete H S t op.2.1).1
+
+/-- FULL STATEMENT of the persistence clause: for a collision-free, never-zero hash (`HashOK`), a lawful node
+table and any initial storage content, every state reachable from `MerkleTree::new` by `insert` / `delete` with
+32-byte keys has its root node stored under its hash (`RootPersisted`) and its storage closed under the tree
+(`Closed`). -/
+def PersistStatementOK : Prop :=
+  ∀ (_ : FuelVerif.SmtBytes.HashOK H) (_ : StoreLaws S) (st : σ) (ops : List (Bool × Bytes × Bytes)),
+    (∀ op ∈ ops, op.2.1.length = keyBytes) →
+    RootPersisted H S (ops.foldl (opStep H S) (SMT.new st)) ∧ Closed H S (ops.foldl (opStep H S) (SMT.new st))
+
+open FuelVerif.SmtBytes FuelVerif.SmtRefine in
+/-- every reachable state represents a canonical structural tree -/
+theorem reachable_rep (hok : HashOK H) (laws : StoreLaws S) :
+    ∀ (ops : List (Bool × Bytes × Bytes)) (s : SMT σ), (∃ t, Rep H hok S s t) →
+      (∀ op ∈ ops, op.2.1.length = keyBytes) → ∃ t, Rep H hok S (ops.foldl (opStep H S) s) t
+  | [], _, h, _ => h
+  | op :: ops, s, ⟨t, hr⟩, hk => by
+    have hk0 := hk op List.mem_cons_self
+    refine reachable_rep hok laws ops _ ?_ (fun o ho => hk o (List.mem_cons_of_mem _ ho))
+    unfold opStep
+    by_cases hb : op.1 = true
+    · obtain ⟨s', h1, h2⟩ := insert_rep H hok S laws hr ⟨op.2.1, hk0⟩ op.2.2 ⟨H op.2.2, hok.len _⟩ rfl
+      simp only at h1
+      rw [if_pos hb, h1]
+      exact ⟨_, h2⟩
+    · obtain ⟨s', h1, h2⟩ := delete_rep H hok S laws hr ⟨op.2.1, hk0⟩
+      simp only at h1
+      rw [if_neg hb, h1]
+      exact ⟨_, h2⟩
+
+open FuelVerif.SmtBytes FuelVerif.SmtRefine in
+/-- in a represented state everything reachable through the node table is a node of the tree -/
+theorem rep_reach (hok : HashOK H) {s : SMT σ} {t : T} (hr : Rep H hok S s t) :
+    ∀ h, Reach S s.storage s.rootHash h →
+      h = zeroSum ∨ ∃ (u : T) (d : Nat), u ≠ .empty ∧ Stored H hok S s.storage d u ∧ hb H hok u = h := by
+  intro h hreach
+  induction hreach with
+  | root =>
+    by_cases e : t = .empty
+    · left; rw [SMT.rootHash, hr.root, e]; rfl
+    · right; exact ⟨t, 0, e, hr.stored, by rw [SMT.rootHash, hr.root, nodeOf_hash]⟩
+  | @lo h p _ hz hg hp ih =>
+    rcases ih with e | ⟨u, d, hne, hs, e⟩
+    · exact absurd e hz
+    · subst e
+      rw [Stored.top H hok S hs hne] at hg
+      cases hg
+      cases u with
+      | empty => exact absurd rfl hne
+      | leaf k v => exact absurd (prefix_byte_injective Prefix.leaf Prefix.node hp) (by decide)
+      | node l r =>
+        by_cases el : l = .empty
+        · left; subst el; rfl
+        · right; exact ⟨l, d + 1, el, hs.2.1, rfl⟩
+  | @hi h p _ hz hg hp ih =>
+    rcases ih with e | ⟨u, d, hne, hs, e⟩
+    · exact absurd e hz
+    · subst e
+      rw [Stored.top H hok S hs hne] at hg
+      cases hg
+      cases u with
+      | empty => exact absurd rfl hne
+      | leaf k v => exact absurd (prefix_byte_injective Prefix.leaf Prefix.node hp) (by decide)
+      | node l r =>
+        by_cases er : r = .empty
+        · left; subst er; rfl
+        · right; exact ⟨r, d + 1, er, hs.2.2, rfl⟩
+
+open FuelVerif.SmtBytes FuelVerif.SmtRefine in
+/-- a represented state is closed -/
+theorem rep_closed (hok : HashOK H) {s : SMT σ} {t : T} (hr : Rep H hok S s t) : Closed H S s := by
+  intro h hreach hz
+  rcases rep_reach H S hok hr h hreach with e | ⟨u, d, hne, hs, e⟩
+  · exact absurd e hz
+  · exact ⟨nodeOf H hok d u, nodeOf_wf H hok d u, nodeOf_ne_placeholder H hok hne,
+      by rw [nodeOf_hash]; exact e, by rw [← e]; exact Stored.top H hok S hs hne⟩
+
+/-- **C13, persistence clause, for every history** (`PersistStatementOK`): every reachable state has its root
+node stored under its hash and a storage closed under the tree -/
+theorem persistStatement_holds : PersistStatementOK H S := by
+  intro hok laws st ops hk
+  obtain ⟨t, hr⟩ := reachable_rep H S hok laws ops (SMT.new st)
+    ⟨.empty, trivial, rfl, trivial⟩ hk
+  exact ⟨FuelVerif.SmtRefine.rep_rootPersisted H hok S hr, rep_closed H S hok hr⟩
+
+/-- **reload at ANY point of ANY history is the identity**: for every reachable state, `MerkleTree::load`
+from its storage at its current root returns the very same state — hence (`reload_same_behaviour`) the same
+proofs and the same results and roots under all further operations -/
+theorem reachable_load_roundtrip (hok : FuelVerif.SmtBytes.HashOK H) (laws : StoreLaws S) (st : σ)
+    (ops : List (Bool × Bytes × Bytes)) (hk : ∀ op ∈ ops, op.2.1.length = keyBytes) :
+    load H S (ops.foldl (opStep H S) (SMT.new st)).storage (ops.foldl (opStep H S) (SMT.new st)).rootHash =
+      .ok (ops.foldl (opStep H S) (SMT.new st)) :=
+  load_roundtrip H S _ (persistStatement_holds H S hok laws st ops hk).1
+
+/-- crash-point form: run a prefix, reload from the storage, run the suffix — the same state as without the
+reload -/
+theorem reload_mid_history (hok : FuelVerif.SmtBytes.HashOK H) (laws : StoreLaws S) (st : σ)
+    (pre suf : List (Bool × Bytes × Bytes)) (hk : ∀ op ∈ pre ++ suf, op.2.1.length = keyBytes) :
+    ∃ s, load H S (pre.foldl (opStep H S) (SMT.new st)).storage
+        (pre.foldl (opStep H S) (SMT.new st)).rootHash = .ok s ∧
+      suf.foldl (opStep H S) s = (pre ++ suf).foldl (opStep H S) (SMT.new st) := by
+  refine ⟨_, reachable_load_roundtrip H S hok laws st pre
+    (fun op ho => hk op (List.mem_append_left _ ho)), ?_⟩
+  rw [List.foldl_append]
+
+/-- the hypothesis on the hash function cannot be dropped: with a hash function that returns the zero sum the
+first inserted leaf is indistinguishable from a placeholder, and `PersistStatement` as first written fails -/
+theorem persistStatement_needs_hash :
+    ¬ PersistStatement (fun _ => zeroSum) funStore := by
+  intro h
+  have h1 := h funStore_laws (fun _ => none) [(true, [], [])]
+  rcases h1 with h1 | ⟨_, h2, _⟩
+  · simp [insert, SMT.new, Node.isPlaceholder, Node.createLeaf] at h1
+  · exact h2 rfl
 
 end FuelVerif.SmtStore
